@@ -569,6 +569,17 @@ func (b *bootstrapContext) waitForConfigDelete(ctx context.Context, bucketName, 
 		if version != "" && version != config.Version {
 			return false, base.ErrConfigRegistryReloadRequired, nil
 		}
+		if version == "" {
+			// No registry entry when the caller read the registry: the document may belong to a database
+			// created since then. Re-check before treating it as an orphan.
+			latest, regErr := b.getGatewayRegistry(ctx, bucketName)
+			if regErr != nil {
+				return false, regErr, nil
+			}
+			if _, ok := latest.getRegistryDatabase(groupID, dbName); ok {
+				return false, base.ErrConfigRegistryReloadRequired, nil
+			}
+		}
 
 		return true, base.ErrAlreadyExists, cas
 	}
